@@ -155,6 +155,75 @@ fn lower_attributes(list: Option<cst::AttributeList>) -> Vec<ast::Attribute> {
     .unwrap_or_default()
 }
 
+fn text_without_trailing_trivia(syntax: &parser::syntax::MySyntaxNode) -> String {
+    let mut text = String::new();
+    let mut end = 0;
+    for element in syntax.descendants_with_tokens() {
+        if let Some(token) = element.as_token() {
+            text.push_str(token.text());
+            if !matches!(
+                token.kind(),
+                MySyntaxKind::Whitespace | MySyntaxKind::Comment
+            ) {
+                end = text.len();
+            }
+        }
+    }
+    text.truncate(end);
+    text
+}
+
+fn unescape_string_literal(raw: &str) -> String {
+    let mut out = String::with_capacity(raw.len());
+    let mut chars = raw.chars();
+    while let Some(ch) = chars.next() {
+        if ch != '\\' {
+            out.push(ch);
+            continue;
+        }
+        match chars.next() {
+            Some('n') => out.push('\n'),
+            Some('r') => out.push('\r'),
+            Some('t') => out.push('\t'),
+            Some('b') => out.push('\u{8}'),
+            Some('f') => out.push('\u{c}'),
+            Some('u') => {
+                let hex: String = chars.by_ref().take(4).collect();
+                let unit = u32::from_str_radix(&hex, 16).ok();
+                let mut lookahead = chars.clone();
+                let low = if matches!(unit, Some(0xD800..=0xDBFF))
+                    && lookahead.next() == Some('\\')
+                    && lookahead.next() == Some('u')
+                {
+                    let low_hex: String = lookahead.by_ref().take(4).collect();
+                    u32::from_str_radix(&low_hex, 16)
+                        .ok()
+                        .filter(|low| (0xDC00..=0xDFFF).contains(low))
+                } else {
+                    None
+                };
+                let code = match (unit, low) {
+                    (Some(high), Some(low)) => {
+                        chars = lookahead;
+                        Some(0x10000 + ((high - 0xD800) << 10) + (low - 0xDC00))
+                    }
+                    (unit, _) => unit,
+                };
+                match code.and_then(char::from_u32) {
+                    Some(decoded) => out.push(decoded),
+                    None => {
+                        out.push_str("\\u");
+                        out.push_str(&hex);
+                    }
+                }
+            }
+            Some(other) => out.push(other),
+            None => out.push('\\'),
+        }
+    }
+    out
+}
+
 fn attribute_path(attr: &ast::Attribute) -> Option<&str> {
     let trimmed = attr.text.trim();
     let inner = trimmed.strip_prefix("#[")?.strip_suffix(']')?.trim();
@@ -1096,7 +1165,7 @@ fn lower_expr_with_args(
                 return None;
             }
             Some(ast::Expr::EString {
-                value: value.to_string(),
+                value: unescape_string_literal(value),
                 astptr,
             })
         }
@@ -2022,7 +2091,7 @@ fn lower_pat(ctx: &mut LowerCtx, node: cst::Pattern) -> Option<ast::Pat> {
                 return None;
             };
             Some(ast::Pat::PString {
-                value: value.to_string(),
+                value: unescape_string_literal(value),
                 astptr,
             })
         }
